@@ -97,7 +97,7 @@ def lens_by_split(shape, leaves, rooted, pat):
         if i == 0:
             continue
         groups.setdefault(s, []).append(i)
-    fn = {"ones": lambda s: 1.0, "f1": _f1, "f2": _f2, "missing1": _f1, "rootlen": _f1}[pat]
+    fn = {"ones": lambda s: 1.0, "f1": _f1, "f2": _f2, "missing1": _f1, "missing_int": _f1, "rootlen": _f1}[pat]
     out = [None] * len(masks)
     for s, idxs in groups.items():
         l = fn(s)
@@ -113,6 +113,16 @@ def lens_by_split(shape, leaves, rooted, pat):
     if pat == "missing1" and groups:
         # the edge(s) inducing the numerically smallest split lose their length
         s = min(groups)
+        for i in groups[s]:
+            out[i] = None
+    if pat == "missing_int" and groups:
+        # an INTERNAL edge loses its length (its split is typically absent from the other tree of a pair):
+        # the split with the most taxa on its smaller side; falls back to the smallest split on stars
+        def weight(sp):
+            k = bin(sp).count("1")
+            return min(k, bin(fill).count("1") - k)
+        cands = [sp for sp in groups if weight(sp) >= 2]
+        s = max(cands, key=lambda sp: (weight(sp), sp)) if cands else min(groups)
         for i in groups[s]:
             out[i] = None
     if pat == "rootlen":
@@ -305,7 +315,8 @@ def drawings(n, rooted, per_topology=3, unif=False):
 
 # (both argument orders are evaluated for every item, so mirrored pattern pairs would add little)
 PATTERN_PAIRS = [("none", "none"), ("ones", "ones"), ("f1", "f1"), ("f1", "f2"), ("rootlen", "f1"),
-                 ("none", "f1"), ("missing1", "f1"), ("missing1", "missing1"), ("f2", "missing1")]
+                 ("none", "f1"), ("missing1", "f1"), ("missing1", "missing1"), ("f2", "missing1"),
+                 ("missing_int", "f1"), ("f2", "missing_int")]
 
 
 def _pair_items(tier, seed):
@@ -352,7 +363,7 @@ def _pair_items(tier, seed):
                 for c, ds in dr.items():
                     for (sa, la) in ds:
                         for (sb, lb) in reps:
-                            for pa, pb in (("f1", "f2"), ("missing1", "f1")):
+                            for pa, pb in (("f1", "f2"), ("missing1", "f1"), ("f2", "missing_int")):
                                 items.append({"a": mkspec(sa, [ren[x] for x in la], rooted, pa, nsd),
                                               "b": mkspec(sb, [ren[x] for x in lb], rooted, pb, nsd)})
     return items
@@ -627,7 +638,7 @@ def t2(ctx):
             sb, lb = sa, list(la)
             i, j = rng.sample(range(n), 2)
             lb[i], lb[j] = lb[j], lb[i]
-        pa, pb = rng.choice([("f1", "f2"), ("f1", "f1"), ("ones", "f2"), ("missing1", "f1"), ("none", "f1")])
+        pa, pb = rng.choice([("f1", "f2"), ("f1", "f1"), ("ones", "f2"), ("missing1", "f1"), ("none", "f1"), ("missing_int", "f2")])
         items.append({"a": mkspec(sa, la, rooted, pa, nsd), "b": mkspec(sb, lb, rooted, pb, nsd)})
     for item, (key, n, fails, ncalls) in zip(items, pmap(_w_pair, items, chunksize=4)):
         for i in range(ncalls):
